@@ -122,7 +122,8 @@ m("c14-pv-from-iff1",["C14"],"op_load8.go","\tif cpu.IFF2 {\n\t\tor |= maskPV","
 m("c14-ld-i-a-also-r",["C14"],"op_load8.go","func oopLDIA(cpu *CPU) {\n\tcpu.IR.Hi = cpu.AF.Hi","func oopLDIA(cpu *CPU) {\n\tcpu.IR.Hi = cpu.AF.Hi\n\tcpu.IR.Lo = cpu.AF.Hi")
 m("c14-ld-a-r-clears-c",["C14"],"op_load8.go","func (cpu *CPU) updateFlagIR(d uint8) {\n\tvar nand uint8 = maskS53 | maskZ | maskH | maskPV | maskN","func (cpu *CPU) updateFlagIR(d uint8) {\n\tvar nand uint8 = maskS53 | maskZ | maskH | maskPV | maskN | maskC")
 m("c14-nmi-bumps-r",["C14"],"cpu.go","\t\tcpu.PC = 0x0066\n","\t\tcpu.PC = 0x0066\n\t\tcpu.IR.Lo++\n",note="R written outside instruction execution (who-may-write)")
-m("c14-reset-helper-writes-ir",["C14"],"z80.go","","// ResetRefresh clears the refresh counter.\nfunc (cpu *CPU) ResetRefresh() { cpu.IR.Lo = 0 }\n",note="an exported helper that lets I/R change other than through LD")
+m("c14-reset-helper-writes-ir",["C14"],"z80.go","","// ResetRefresh clears the refresh counter.\nfunc (cpu *CPU) ResetRefresh() { cpu.IR.Lo = 0 }\n",expect="silent",note="an exported helper the user has to call himself: it cannot act while a program executes (the earlier rule flagged every writer in the package, which is more than the property states)")
+m("c14-step-clears-refresh",["C14"],"cpu.go","	// execute an op-code.\n	cpu.executeOne()","	cpu.executeOne()\n	cpu.resetRefreshIfIdle()",edits=[{"file":"z80.go","old":"","new":"func (cpu *CPU) resetRefreshIfIdle() {\n	if cpu.HALT {\n		cpu.IR.Lo &= 0x7f\n	}\n}\n"}],note="a helper called from Step clears bit 7 of R while halted")
 m("c14-r-update-refactor",["C14","C01"],"cpu.go","cpu.IR.Lo = rc&0x80 | (rc+1)&0x7f","cpu.IR.Lo = rc&0x80 + (rc&0x7f+1)&0x7f",expect="silent",note="equivalent refresh increment")
 
 # ---- C08
@@ -160,7 +161,8 @@ m("c10-init-table-refactor",["C10"],"flag.go","type Flag uint8\n","type Flag uin
 # ---- C12
 m("c12-dumbmemory-set-off-by-one",["C12","C15"],"memio.go","func (dm DumbMemory) Set(addr uint16, value uint8) {\n\tif int(addr) >= len(dm) {","func (dm DumbMemory) Set(addr uint16, value uint8) {\n\tif int(addr) > len(dm) {")
 m("c12-im2-len-guard-removed",["C12"],"cpu.go","\tcase 2:\n\t\t// Interrupt with IM 2\n\t\tif len(cpu.Interrupt.Data) > 0 {","\tcase 2:\n\t\t// Interrupt with IM 2\n\t\tif cpu.Interrupt.Data != nil {")
-m("c12-default-arm-loops",["C12","C09"],"operation.go","\tdefault:\n\t\tcpu.invalidCode(c0)\n","\tdefault:\n\t\tfor c0 == 0xdd {\n\t\t\tc0 = cpu.fetchM1()\n\t\t}\n\t\tcpu.invalidCode(c0)\n")
+m("c12-default-arm-loops",["C12","C09"],"operation.go","\tdefault:\n\t\tcpu.invalidCode(c0)\n","\tdefault:\n\t\tfor c0 == 0xdd {\n\t\t\tc0 = cpu.fetchM1()\n\t\t}\n\t\tcpu.invalidCode(c0)\n",expect="silent",note="the loop condition is false in every specialisation that reaches it (c0 is never DDh in the default arm): zero iterations, followed concretely")
+m("c12-ed-default-arm-scans-memory",["C12","C09","C13"],"operation.go","\t\tdefault:\n\t\t\tcpu.invalidCode(c0, c1)\n","\t\tdefault:\n\t\t\tfor c1 != 0x76 {\n\t\t\t\tc1 = cpu.fetchM1()\n\t\t\t}\n\t\t\tcpu.invalidCode(c0, c1)\n",occ=2,note="an undefined ED opcode makes Step scan memory for the next 76h: unbounded")
 m("c12-invalid-ed-rewinds",["C12","C01"],"operation.go","\t\tdefault:\n\t\t\tcpu.invalidCode(c0, c1)\n\t\t}\n\n\tcase 0xfd:","\t\tdefault:\n\t\t\tcpu.invalidCode(c0, c1)\n\t\t\tcpu.PC--\n\t\t}\n\n\tcase 0xfd:",note="unsupported ED opcode is not consumed: its second byte is executed again")
 m("c12-io-nil-check-dropped",["C12"],"cpu.go","func (cpu *CPU) ioOut(addr uint8, value uint8) {\n\tif cpu.IO == nil {\n\t\treturn\n\t}\n","func (cpu *CPU) ioOut(addr uint8, value uint8) {\n")
 m("c12-retn-handler-called-after-pop",["C12"],"op_callret.go","func oopRETN(cpu *CPU) {\n\tif cpu.RETNHandler != nil {\n\t\tcpu.RETNHandler.RETNHandle()\n\t}\n\n\tcpu.PC = cpu.readU16(cpu.SP)","func oopRETN(cpu *CPU) {\n\tif cpu.RETNHandler == nil {\n\t\tcpu.PC = cpu.readU16(cpu.SP)\n\t\tcpu.SP += 2\n\t\tcpu.IFF1 = cpu.IFF2\n\t\treturn\n\t}\n\tcpu.PC = cpu.readU16(cpu.SP)\n\tcpu.RETNHandler.RETNHandle()\n",expect="silent",note="handler invoked after memory callbacks ran since the nil test: safe under the stated callback assumption (callbacks may change CPU.Interrupt only), decided by value")
@@ -181,6 +183,8 @@ m("c12-halt-unless-request-pending",["C12","C08","C01"],"op_ctrl.go","\tcpu.HALT
 m("c18-resident-byte-below-bdos",["C18"],"internal/tinycpm/tinycpm.go","\tm.put(0xfe06, biosFE06...)","\tm.put(0xfe06, biosFE06...)\n\tm.put(0xfe05, 0xc9)",note="a resident byte just below the BDOS entry: a program that puts its stack at (0006h) overwrites it")
 m("c08-deferred-closure-rewrites-result",["C08"],"cpu.go","func (cpu *CPU) Run(ctx context.Context) error {\n","func (cpu *CPU) Run(ctx context.Context) (err error) {\n\tdefer func() {\n\t\tif err == ErrBreakPoint {\n\t\t\terr = nil\n\t\t}\n\t}()\n",note="a deferred closure turns ErrBreakPoint into nil through the named result")
 m("c08-named-result-refactor",["C08","C13","C12"],"cpu.go","func (cpu *CPU) Run(ctx context.Context) error {\n","func (cpu *CPU) Run(ctx context.Context) (err error) {\n\tdefer func() {\n\t\tif r := recover(); r != nil {\n\t\t\tpanic(r)\n\t\t}\n\t}()\n",expect="silent",note="named result and a deferred closure that re-panics only: same returns")
+m("c12-fixed-trip-loop-refactor",["C12","C13","C09","C01","C05"],"cpu.go","\tl, h := fromU16(v)\n\tcpu.Memory.Set(addr, l)\n\tcpu.Memory.Set(addr+1, h)\n","\tfor i := uint(0); i < 2; i++ {\n\t\tcpu.Memory.Set(addr+uint16(i), uint8(v>>(8*i)))\n\t}\n",expect="silent",note="a loop below Step with a fixed trip count: same accesses in the same order")
+m("c12-data-dependent-loop",["C12","C13"],"cpu.go","\tl, h := fromU16(v)\n\tcpu.Memory.Set(addr, l)\n\tcpu.Memory.Set(addr+1, h)\n","\tl, h := fromU16(v)\n\tcpu.Memory.Set(addr, l)\n\tcpu.Memory.Set(addr+1, h)\n\tfor n := l; n&1 != 0; n >>= 1 {\n\t}\n",note="a loop below Step whose trip count depends on data")
 # ---- C16
 m("c16-resetflag-and",["C16"],"flag.go","gpr.AF.Lo &= ^uint8(f)","gpr.AF.Lo &= uint8(f)")
 m("c16-getflag-all-bits",["C16"],"flag.go","return gpr.AF.Lo&uint8(f) != 0","return gpr.AF.Lo&uint8(f) == uint8(f)",note="differs only for combined masks")
